@@ -27,14 +27,17 @@ def run(chk):
                       'a node is never stored inside its own subtree (user error, not generated)']
   symtree_check.model_check(chk, ['C01_quick.cfg'] + (['C01_thorough.cfg'] if thorough else []))
   hits = {}
-  for cfg, num, depth in ([('C01_sim.cfg', 600, 30), ('C01_sim_obj.cfg', 300, 30)] if not thorough else
-                          [('C01_sim.cfg', 6000, 40), ('C01_sim_obj.cfg', 3000, 40)]):
+  for cfg, num, depth in ([('C01_sim.cfg', 500, 30), ('C01_sim_obj.cfg', 300, 30), ('C01_sim_td.cfg', 300, 30)] if not thorough else
+                          [('C01_sim.cfg', 6000, 40), ('C01_sim_obj.cfg', 3000, 40), ('C01_sim_td.cfg', 3000, 40)]):
     h = symtree_check.replay_simulated(chk, cfg, CLAUSES, num, depth, chk.seed, batches=1 if not thorough else 8)
     for k, v in h.items():
       hits[k] = hits.get(k, 0) + v
   # one implementation test per transition, from every sampled small tree
-  for states_cfg, step_cfg, k in ([('C01_states.cfg', 'C01_step.cfg', 10), ('C01_states.cfg', 'C01_step2.cfg', 3)] if not thorough
-                                  else [('C01_states.cfg', 'C01_step.cfg', 60), ('C01_states.cfg', 'C01_step2.cfg', 20)]):
+  # copies (clone / JSON round trip) are cheap: they are taken from EVERY dumped state, typed roots included
+  for states_cfg, step_cfg, k in ([('C01_states.cfg', 'C01_step.cfg', 10), ('C01_states.cfg', 'C01_step2.cfg', 3),
+                                   ('C01_states_td.cfg', 'C01_step3.cfg', 100000)] if not thorough
+                                  else [('C01_states.cfg', 'C01_step.cfg', 60), ('C01_states.cfg', 'C01_step2.cfg', 20),
+                                        ('C01_states_td.cfg', 'C01_step3.cfg', 100000)]):
     h = symtree_check.replay_transitions(chk, states_cfg, step_cfg, CLAUSES, max_states=k, seed=chk.seed)
     for kk, v in h.items():
       hits[kk] = hits.get(kk, 0) + v
